@@ -86,7 +86,7 @@ def check(col: Collector, tier: str):
                         ok_args = True
         else:
             kk, vv = resolve_name(fn, k), v
-            guarded = any(tr_ and "replacement_instance_obj is not None" in src(t) for t, tr_ in gs)
+            guarded = any((not tr_) and src(t).endswith("replacement_instance_obj is None") for t, tr_ in gs)
             if guarded and src(kk) == "cpp_ast_node.replacement_instance_obj[0]" and isinstance(vv, ast.Call) and call_name(vv) == "as_cpp":
                 inner = vv.func.value
                 if isinstance(inner, ast.Attribute) and inner.attr == "rep" and isinstance(inner.value, ast.Call) and call_name(inner.value) == "resolve_id":
@@ -154,19 +154,25 @@ def check(col: Collector, tier: str):
     col.floor("C11.R3", 5)
     pmb = parent_map(bc.node)
     raises = [r for r in walk_no_nested(bc.node) if isinstance(r, ast.Raise)]
-    gtxt = [" && ".join(src(t) + "=" + str(tr_) for t, tr_ in guards(bc.node, r, pmb)) for r in raises]
+    # tests are compared in positive form with their outcome (guards() folds `not`, `!=`, `is not`, guard clauses and if/else alike)
+    ARITY = ("len(call_node.args) == len(spec.arguments)", False)
+    FUNC_AS_METHOD = ("isinstance(call_node.func, ast.Attribute) and spec.method_object is None", True)
+    METHOD_AS_FUNC = ("isinstance(call_node.func, ast.Name) and spec.method_object is not None", True)
+    gsets = [{(src(t), tr_) for t, tr_ in guards(bc.node, r, pmb)} for r in raises]
+    gtxt = [sorted(g) for g in gsets]
     ctor = [c for c in walk_no_nested(bc.node) if isinstance(c, ast.Call) and call_name(c) == "CPPCodeValue"]
-    before = bool(ctor) and all(r.lineno < ctor[0].lineno for r in raises)
-    col.add("C11.R3", bc.short, "arity-mismatch-raises", any("len(call_node.args) != len(spec.arguments)=True" in g for g in gtxt) and before, f"guards {gtxt}", bc.loc)
-    col.add("C11.R3", bc.short, "method-style-call-of-a-function-raises",
-            any("isinstance(call_node.func, ast.Attribute) and spec.method_object is None=True" in g for g in gtxt) and before, f"guards {gtxt}", bc.loc)
-    col.add("C11.R3", bc.short, "function-style-call-of-a-method-raises",
-            any("isinstance(call_node.func, ast.Name) and spec.method_object is not None=True" in g for g in gtxt) and before, f"guards {gtxt}", bc.loc)
+    passed = {(ARITY[0], True), (FUNC_AS_METHOD[0], False), (METHOD_AS_FUNC[0], False)}
+    before = bool(ctor) and passed <= {(src(t), tr_) for t, tr_ in guards(bc.node, ctor[0], pmb)}
+    col.add("C11.R3", bc.short, "arity-mismatch-raises", any(ARITY in g for g in gsets) and before, f"guards {gtxt}", bc.loc)
+    col.add("C11.R3", bc.short, "method-style-call-of-a-function-raises", any(FUNC_AS_METHOD in g for g in gsets) and before, f"guards {gtxt}", bc.loc)
+    col.add("C11.R3", bc.short, "function-style-call-of-a-method-raises", any(METHOD_AS_FUNC in g for g in gsets) and before, f"guards {gtxt}", bc.loc)
     inst = [n_ for n_ in walk_no_nested(bc.node) if isinstance(n_, ast.Assign) and src(n_.targets[0]) == "call_node.func"]
-    col.add("C11.R3", bc.short, "node-rewritten-only-after-the-checks", len(inst) == 1 and all(r.lineno < inst[0].lineno for r in raises) and len(raises) == 3, "", bc.loc)
+    col.add("C11.R3", bc.short, "node-rewritten-only-after-the-checks",
+            len(inst) == 1 and passed <= {(src(t), tr_) for t, tr_ in guards(bc.node, inst[0], pmb)} and len(raises) == 3,
+            "the call node may be rewritten only where all three checks passed", bc.loc)
     for f in repo.functions_named("isNonnullAst"):
         pmf = parent_map(f.node)
-        ok = any(isinstance(r, ast.Raise) and any(tr_ and src(t) == "len(call_node.args) != 1" for t, tr_ in guards(f.node, r, pmf)) for r in walk_no_nested(f.node))
+        ok = any(isinstance(r, ast.Raise) and any((not tr_) and src(t) == "len(call_node.args) == 1" for t, tr_ in guards(f.node, r, pmf)) for r in walk_no_nested(f.node))
         col.add("C11.R3", f"{f.module.name.split('.')[-2]}.isNonnullAst", "arity-checked", ok, "", f.loc)
 
     # ------------------------------------------------------------ R4 includes / libraries
